@@ -1,9 +1,12 @@
 (* C08 - a call invokes exactly the function that name resolution designates.
-   Statements only; proofs are in Cao.CompilerResolve.  The specification is ResolveSpec.v (module
-   tree level, independent of the compiler model); the run-time half (which body runs, parameter
+   Statements only; proofs are in Cao.CompilerResolve, Cao.ResolveProofs (the four lookup rules),
+   Cao.ResolveTree (front end = tree), Cao.CompilerCalls (module level), Cao.CompilerLabels (labels),
+   Cao.C08Examples.  The specification is ResolveSpec.v (module tree level, independent of the compiler
+   model); the run-time half (CallFunction runs the code at the label of the pointer's handle, parameter
    binding, caller locals, return value) is checked by the C08 correspondence stream on the real Vm. *)
 From Coq Require Import List NArith ZArith.
-From Cao Require Import ListUtil Bits CardAst Bytecode Compiler ResolveSpec CompilerResolve.
+From Cao Require Import ListUtil Bits CardAst Bytecode Compiler StdlibGen ResolveSpec CompilerResolve ResolveProofs
+  ResolveTree CompilerProofs CompilerLabels CompilerCalls C08Examples.
 Import ListNotations.
 
 (* ---- resolution never panics or diverges; its result is a declared function ---- *)
@@ -15,30 +18,59 @@ Theorem C08_resolve_outcomes :
 Proof. exact resolve_outcomes. Qed.
 Print Assumptions C08_resolve_outcomes.
 
-(* ---- resolve_sound / resolve_complete, partial: rules 1 and 2 (absolute dotted path, caller's own
-   module).  [table_matches] (the jump table declares exactly the functions of the tree) is a
-   hypothesis here; the import rules 3 and 4 are covered by the correspondence run only.
-   Full statements, not proved:
-     resolve_sound    : resolve_function n s = ROk m s -> exists f, spec_resolve root ns imps n = SFound f
-                                                                     /\ m is the table entry of f
-     resolve_complete : spec_resolve root ns imps n = SFound f -> resolve_function n s = ROk (entry of f) s *)
-Theorem C08_resolve_direct_agrees_partial :
-  forall root s name imports f,
+(* ---- resolve_sound / resolve_complete, all four rules ----
+   [table_matches root jt]: the jump table has an entry for a key exactly when the key, read as a dotted
+   path from the root, is a function of the tree (C08_compile_table_matches below: true for the table of
+   every module that compiles and whose module names contain no '.').  [il] is the caller module's
+   import list and cs_imports the table the model's execute_imports builds from it.
+   The model and the specification designate the same function - the result is the table entry of that
+   function - or fail with the corresponding error.  The priority between the rules is part of the
+   statement: spec_resolve returns the first rule's function, and so does the model. *)
+Theorem C08_resolve_agrees :
+  forall root il name s,
     table_matches root (cs_jump s) ->
-    direct root (cs_ns s) name = Some f ->
-    spec_resolve root (cs_ns s) imports name = SFound f /\
-    exists m, resolve_function name s = ROk m s /\
-              sm_find (ns_prefix (fst f) ++ snd f) (cs_jump s) = Some m.
-Proof. exact resolve_direct_agrees. Qed.
-Print Assumptions C08_resolve_direct_agrees_partial.
+    Forall dotfree (cs_ns s) ->
+    execute_imports il [] = inr (cs_imports s) ->
+    match spec_resolve root (cs_ns s) il name with
+    | SFound f => exists m, sm_find (ns_prefix (fst f) ++ snd f) (cs_jump s) = Some m /\
+                            resolve_function name s = ROk m s
+    | SNotFound => resolve_function name s = RErr (EInvalidJump name) (Some (cur_loc s))
+    | SSuperLimit => resolve_function name s = RErr ESuperLimitReached (Some (cur_loc s))
+    end.
+Proof. exact resolve_agrees. Qed.
+Print Assumptions C08_resolve_agrees.
 
-Theorem C08_resolve_direct_miss_partial :
-  forall root s name,
-    table_matches root (cs_jump s) ->
-    direct root (cs_ns s) name = None ->
-    sm_find name (cs_jump s) = None /\ sm_find (ns_prefix (cs_ns s) ++ name) (cs_jump s) = None.
-Proof. exact resolve_direct_miss. Qed.
-Print Assumptions C08_resolve_direct_miss_partial.
+Theorem C08_resolve_sound :
+  forall root il name s m s',
+    table_matches root (cs_jump s) -> Forall dotfree (cs_ns s) -> execute_imports il [] = inr (cs_imports s) ->
+    resolve_function name s = ROk m s' ->
+    s' = s /\ exists f, spec_resolve root (cs_ns s) il name = SFound f /\
+                        sm_find (ns_prefix (fst f) ++ snd f) (cs_jump s) = Some m.
+Proof. exact resolve_sound. Qed.
+Print Assumptions C08_resolve_sound.
+
+Theorem C08_resolve_complete :
+  forall root il name s f,
+    table_matches root (cs_jump s) -> Forall dotfree (cs_ns s) -> execute_imports il [] = inr (cs_imports s) ->
+    spec_resolve root (cs_ns s) il name = SFound f ->
+    exists m, resolve_function name s = ROk m s /\ sm_find (ns_prefix (fst f) ++ snd f) (cs_jump s) = Some m.
+Proof. exact resolve_complete. Qed.
+Print Assumptions C08_resolve_complete.
+
+(* InvalidJump <-> SNotFound, SuperLimitReached <-> SSuperLimit, and no other error *)
+Theorem C08_resolve_errors :
+  forall root il name s,
+    table_matches root (cs_jump s) -> Forall dotfree (cs_ns s) -> execute_imports il [] = inr (cs_imports s) ->
+    (forall e l, resolve_function name s = RErr e l ->
+       l = Some (cur_loc s) /\
+       ((e = EInvalidJump name /\ spec_resolve root (cs_ns s) il name = SNotFound) \/
+        (e = ESuperLimitReached /\ spec_resolve root (cs_ns s) il name = SSuperLimit))) /\
+    (spec_resolve root (cs_ns s) il name = SNotFound ->
+       resolve_function name s = RErr (EInvalidJump name) (Some (cur_loc s))) /\
+    (spec_resolve root (cs_ns s) il name = SSuperLimit ->
+       resolve_function name s = RErr ESuperLimitReached (Some (cur_loc s))).
+Proof. exact resolve_errors. Qed.
+Print Assumptions C08_resolve_errors.
 
 (* ---- bad_names_rejected ---- *)
 (* duplicates by full name, at any depth: stage 1 succeeds only on pairwise distinct full names *)
@@ -126,6 +158,159 @@ Theorem C08_label_kept_if_distinct :
                    forall p, nm_find h (cs_labels s) = Some p -> nm_find h (cs_labels s') = Some p.
 Proof. exact label_insert_preserves. Qed.
 Print Assumptions C08_label_kept_if_distinct.
+
+(* ---- the jump table of a compiled module matches the tree ---- *)
+(* [with_std std_module M] is the tree the compiler flattens (the standard library injected as the last
+   submodule).  module_names_dotfree is the decidable side condition "no module name contains '.'":
+   module names are not validated by the compiler, and with a dotted module name two different functions
+   can have the same full name. *)
+Theorem C08_compile_table_matches :
+  forall M limit fs d s1,
+    into_ir_stream M limit = inr fs -> module_names_dotfree (with_std std_module M) = true ->
+    stage_1 fs (init_state d) = ROk tt s1 ->
+    table_matches (with_std std_module M) (cs_jump s1).
+Proof. exact compile_table_matches. Qed.
+Print Assumptions C08_compile_table_matches.
+
+(* the flattening front end enumerates exactly ResolveSpec.tree_functions, numbered consecutively
+   (handle of the k-th function = Handle::from_u64(k)), `main` swapped to the front *)
+Theorem C08_ir_stream_is_tree :
+  forall M limit fs,
+    into_ir_stream M limit = inr fs ->
+    ensure_invariants (with_std std_module M) = None /\
+    exists irs i, fs = swap0 irs i /\ irs_from 0 (tree_functions (with_std std_module M) []) irs.
+Proof. exact into_ir_stream_spec. Qed.
+Print Assumptions C08_ir_stream_is_tree.
+
+(* the table entry of a declared function: its position (as a handle) and its arity *)
+Theorem C08_entry_is_position :
+  forall root irs fs jt p g m,
+    irs_from 0 (tree_functions root []) irs -> (forall f, In f fs <-> In f irs) -> table_of fs jt ->
+    lookup root p g = Some (p, g) -> sm_find (ns_prefix p ++ g) jt = Some m ->
+    exists pos fn, fn_position root p g 0 = Some pos /\ function_at root (p, g) = Some fn /\
+                   fm_handle m = handle_from_u64 (N.of_nat pos) /\
+                   fm_arity m = (N.of_nat (length (f_args fn)) mod two32)%N.
+Proof. exact entry_is_position. Qed.
+Print Assumptions C08_entry_is_position.
+
+(* ---- C08_call_resolves: every static call of a compiled module carries the designated target ----
+   The call skeleton of the program (its FunctionPointer and CallFunction instructions, in program
+   order) is, function by function in compile order (tree_functions with `main` swapped to the front),
+   card by card in compile order (ResolveSpec.card_items): one FunctionPointer per Call / Function card,
+   whose handle is Handle(position) and whose arity is the parameter count of the function that
+   spec_resolve designates for the card's name from that function's module path with that module's
+   import list (site_target), followed by CallFunction for a Call card.  In particular every such name
+   resolves (site_target is Some) whenever the module compiles. *)
+Theorem C08_call_resolves :
+  forall M o B,
+    compile M o = COk B ->
+    module_names_dotfree (with_std std_module M) = true ->
+    exists is mi,
+      p_bytecode B = encode is /\
+      main_index (m_functions M) 0 = Some mi /\
+      Forall2 (site_item_ok (with_std std_module M))
+              (flat_map site_items (swap0 (tree_functions (with_std std_module M) []) mi))
+              (filter is_call_instr is).
+Proof. exact compile_calls. Qed.
+Print Assumptions C08_call_resolves.
+
+(* the same, call by call: if the module compiles, every static call / function reference of every
+   function of the tree resolves under the specification (so: a name that resolves to nothing is a
+   compilation error), and the FunctionPointer of its target is in the program *)
+Theorem C08_every_call_resolves :
+  forall M o B,
+    compile M o = COk B ->
+    module_names_dotfree (with_std std_module M) = true ->
+    exists is, p_bytecode B = encode is /\
+      forall st name,
+        In st (tree_functions (with_std std_module M) []) ->
+        In (CPtr name) (flat_map card_items (f_cards (fs_fn st))) ->
+        exists pos ar, site_target (with_std std_module M) st name = Some (pos, ar) /\
+                       In (IFunctionPointer (handle_from_u64 (N.of_nat pos)) (N.of_nat ar mod two32)%N) is.
+Proof. exact compile_every_call_resolves. Qed.
+Print Assumptions C08_every_call_resolves.
+
+(* and conversely for the errors: compile returns InvalidJump / SuperLimitReached only because some
+   static call or function reference of the tree has exactly that outcome under the specification *)
+Theorem C08_resolve_error_is_unresolved_call :
+  forall M o e l,
+    compile M o = CErr e l -> is_resolve_err e = true ->
+    module_names_dotfree (with_std std_module M) = true ->
+    exists st name,
+      In st (tree_functions (with_std std_module M) []) /\
+      In (CPtr name) (flat_map card_items (f_cards (fs_fn st))) /\
+      ((e = EInvalidJump name /\ spec_resolve (with_std std_module M) (fs_path st) (fs_imports st) name = SNotFound) \/
+       (e = ESuperLimitReached /\ spec_resolve (with_std std_module M) (fs_path st) (fs_imports st) name = SSuperLimit)).
+Proof. exact compile_resolve_error. Qed.
+Print Assumptions C08_resolve_error_is_unresolved_call.
+
+(* ---- C08_label_points_to_body: labels[handle g] is the first byte of g's code ----
+   label_keys_distinct is the decidable condition the compiler does not check: the 32-bit keys of all
+   function labels and closure labels (CompilerLabels.insert_keys: a pure traversal of the cards that
+   mirrors the compiler's card indices) are pairwise distinct.  g is any function but the first (main,
+   which gets no label). *)
+Theorem C08_label_points_to_body :
+  forall M o B fs pre g post,
+    into_ir_stream M (o_recursion_limit o) = inr fs -> fs = pre ++ g :: post -> pre <> [] ->
+    compile M o = COk B -> label_keys_distinct fs = true ->
+    exists before body rest,
+      p_bytecode B = encode before ++ encode body ++ encode rest /\
+      nm_find (fi_handle g) (p_labels B) = Some (N.of_nat (length (encode before))) /\
+      (exists s1 s2, compile_other g s1 = ROk tt s2 /\ rev (cs_code s1) = before /\ rev (cs_code s2) = before ++ body).
+Proof. exact compile_label_points_to_body. Qed.
+Print Assumptions C08_label_points_to_body.
+
+(* the same by position in the tree: the handle a call carries (C08_call_resolves) is the key of the
+   label of the designated function, and that label is the start of its code *)
+Theorem C08_label_of_position :
+  forall M o B pos st,
+    compile M o = COk B ->
+    label_keys_distinct_module M (o_recursion_limit o) = true ->
+    nth_error (tree_functions (with_std std_module M) []) pos = Some st ->
+    main_index (m_functions M) 0 <> Some pos ->
+    exists f before body rest,
+      ir_of (N.of_nat pos) st f /\
+      p_bytecode B = encode before ++ encode body ++ encode rest /\
+      nm_find (handle_from_u64 (N.of_nat pos)) (p_labels B) = Some (N.of_nat (length (encode before))) /\
+      exists s1 s2, compile_other f s1 = ROk tt s2 /\ rev (cs_code s1) = before /\ rev (cs_code s2) = before ++ body.
+Proof. exact compile_label_of_position. Qed.
+Print Assumptions C08_label_of_position.
+
+(* ---- examples: root { main = [a.b.go()]; lib { g }; a { util { h(x, y) };
+                        b { imports = [super.super.lib.g, super.util]; go = [g(); util.h(1, 2); &g] } } } ---- *)
+Theorem C08_example_super_spec :
+  module_names_dotfree ex_super_root = true /\
+  spec_resolve ex_super_root [w_a; w_b] ex_b_imports w_g = SFound ([w_lib], w_g) /\
+  spec_resolve ex_super_root [w_a; w_b] ex_b_imports (dotted [w_util; w_h]) = SFound ([w_a; w_util], w_h) /\
+  fn_position ex_super_root [w_lib] w_g 0 = Some 1%nat /\
+  fn_position ex_super_root [w_a; w_util] w_h 0 = Some 2%nat /\
+  fn_position ex_super_root [w_a; w_b] w_go 0 = Some 3%nat.
+Proof. exact ex_super_spec. Qed.
+Print Assumptions C08_example_super_spec.
+
+Theorem C08_example_super_compiled :
+  exists B is, compile ex_super_module default_options = COk B /\ p_bytecode B = encode is /\
+    firstn 7 (filter is_call_instr is) =
+      [IFunctionPointer (handle_from_u64 3) 0; ICallFunction;
+       IFunctionPointer (handle_from_u64 1) 0; ICallFunction;
+       IFunctionPointer (handle_from_u64 2) 2; ICallFunction;
+       IFunctionPointer (handle_from_u64 1) 0].
+Proof. exact ex_super_compiled. Qed.
+Print Assumptions C08_example_super_compiled.
+
+Theorem C08_example_super_label :
+  label_keys_distinct_module ex_super_module 64 = true /\
+  exists B before body rest p,
+    compile ex_super_module default_options = COk B /\
+    p_bytecode B = encode before ++ encode body ++ encode rest /\
+    nm_find (handle_from_u64 3) (p_labels B) = Some p /\
+    p = N.of_nat (length (encode before)) /\
+    match decode (p_bytecode B) with
+    | Some l => In (N.to_nat p, IFunctionPointer (handle_from_u64 1) 0) l
+    | None => False
+    end.
+Proof. exact ex_super_label. Qed.
+Print Assumptions C08_example_super_label.
 
 (* ---- findings N-C08-1 / N-C08-2 (confirmed on the crate at 2f34106, repaired by 4a89bbc) ---- *)
 (* the former super_depth counted the substring "super." inside an ordinary segment such as xsuper *)
